@@ -28,7 +28,7 @@ import collections
 from mc import boundx
 from mc import c12_world as w
 
-BUDGET = {'quick': 80, 'thorough': 600}
+BUDGET = {'quick': 240, 'thorough': 600}
 HASH_INSENSITIVE = True
 
 RULE = ('one case = per-slot (prior file, listed, manifest, placement) x '
